@@ -36,6 +36,7 @@ def main(argv=None):
         mod = importlib.import_module('pgsa.props.%s' % pid.lower())
     except ImportError as exc:
         return report.analysis_error(pid, 'no checker module: %s' % exc)
+    chk = None
     try:
         repo = Repo(os.environ.get('VERIF_REPO', '/repo'))
         chk = report.Check(pid, args.tier, repo, mod.EXPLANATION,
@@ -61,6 +62,14 @@ def main(argv=None):
             return 1 if still else 0
         return rc
     except AnalysisError as exc:
+        # obligations that already failed before an anchor went missing are
+        # violations in their own right: report them (exit 1) together with
+        # the analysis error; with none, the run is analysis-broken (exit 2)
+        if chk is not None and chk.has_new_findings():
+            chk.infos.append('analysis stopped early: %s' % exc)
+            rc = chk.finish()
+            report.analysis_error(pid, str(exc).replace('\n', ' '))
+            return rc
         return report.analysis_error(pid, str(exc).replace('\n', ' '))
     except Exception:
         traceback.print_exc()
